@@ -8,7 +8,10 @@ LaspyException <-> Err ELaspy), the model being fed with what is really in the f
 decoded).  Search: brute-force oracle over the stored points with the half-step tolerance band, independent of the model;
 malformed page references under a watchdog.  Round 4: "grid" files (stored points on adjacent grid steps of every axis)
 and boxes whose bounds lie at / around grid steps in the binary64 sense (`gen_gridstep_box`): what tells rounding to the
-nearest step from truncation / floor / ceiling of the box bounds."""
+nearest step from truncation / floor / ceiling of the box bounds.  Round 5: FLAT data sets (all points on one z / x / y, on
+a line, at one location, a single point: the header's extent has no thickness there) and boxes WITHOUT thickness on 1..3
+axes placed exactly on stored points (`gen_degenerate_box`), 2-D and 3-D; a Bounds object that cannot be built for a legal
+box is a failing input of the query (sessions included)."""
 import io
 import math
 import os
@@ -244,8 +247,9 @@ def child_key(k, d):
     return (l + 1, 2 * x + (d & 1), 2 * y + ((d >> 1) & 1), 2 * z + ((d >> 2) & 1))
 
 
-def gen_keys(rng, depth, budget):
-    """occupied keys: root + random descendants (parents always present)"""
+def gen_keys(rng, depth, budget, ok=None):
+    """occupied keys: root + random descendants (parents always present); ok: predicate the keys must satisfy (flat data
+    sets: only the voxels that meet the plane / line / point the data lie on)"""
     keys = [(0, 0, 0, 0)]
     frontier = [(0, 0, 0, 0)]
     while frontier and len(keys) < budget:
@@ -253,7 +257,8 @@ def gen_keys(rng, depth, budget):
         if k[0] >= depth:
             continue
         nch = rng.choice([0, 1, 1, 2, 2, 3, 8]) if k[0] > 0 else rng.choice([1, 2, 3, 8])
-        for d in rng.sample(range(8), min(nch, 8)):
+        dirs = list(range(8)) if ok is None else [d for d in range(8) if ok(child_key(k, d))]
+        for d in rng.sample(dirs, min(nch, len(dirs))):
             c = child_key(k, d)
             keys.append(c)
             frontier.append(c)
@@ -388,14 +393,54 @@ def shift_geometry(geo, dz_sides):
     return g
 
 
-def build_file(rng, malformed=None, depth=None, budget=None, geo=None, grid=None):
-    """returns dict(raw, geo, fmt, nodes={key: [tags]}, points={tag: (X,Y,Z,rec_bytes,key)}, spacing, hdr_z, label)"""
+EXACT_SCALES = [1.0, 0.5, 0.25, 0.125, 2.0 ** -5, 2.0 ** -7]
+
+
+def flat_setup(rng, geo, axes):
+    """a FLAT data set: on every axis of `axes` all the points have ONE coordinate (a horizontal plane, a profile, a line, a
+    single location).  -> (geometry, {axis: grid step}); on the flat axes mostly a scale / offset for which the real
+    coordinate is exact in binary64, so that the header's min and max of the axis are one number (what a writer computes
+    for such a file); the step is anywhere in the root cube, or ON the face between two voxels of level 1..3"""
+    geo = dict(geo, scales=list(geo["scales"]), offsets=list(geo["offsets"]))
+    steps = {}
+    for i in axes:
+        if not (geo["mode"] == "edge" and i == 0) and rng.random() < 0.75:
+            geo["scales"][i] = rng.choice(EXACT_SCALES)
+            geo["offsets"][i] = rng.choice([0.0, geo["center"][i], float(round(geo["center"][i]))])
+        lo, side = Fraction(geo["lo"][i]), Fraction(geo["side"])
+        s, o = Fraction(geo["scales"][i]), Fraction(geo["offsets"][i])
+        faces = []
+        for m in (1, 2, 3):
+            for j in range(2 ** m + 1):
+                q = (lo + side * j / 2 ** m - o) / s
+                if q.denominator == 1 and I32_MIN <= q <= I32_MAX:
+                    faces.append(int(q))
+        step = rng.choice(faces) if faces and rng.random() < 0.4 else pick_coord(rng, lo, lo + side, geo["scales"][i], geo["offsets"][i])
+        if step is not None:
+            steps[i] = step
+    return geo, steps
+
+
+def build_file(rng, malformed=None, depth=None, budget=None, geo=None, grid=None, flat=None):
+    """returns dict(raw, geo, fmt, nodes={key: [tags]}, points={tag: (X,Y,Z,rec_bytes,key)}, spacing, hdr_z, label).
+    flat: axes on which all the points share one coordinate (all three: every point at one location)"""
     laspy, C = _laspy()
     fmt = rng.choice([6, 7, 8])
     geo = geo if geo is not None else gen_geometry(rng)
     depth = depth if depth is not None else rng.choice([0, 1, 2, 2, 3, 3, 4, 5])
     budget = budget if budget is not None else rng.choice([1, 3, 8, 14, 25, 40])
-    keys = gen_keys(rng, depth, budget)
+    flat_steps = {}
+    if flat:
+        geo, flat_steps = flat_setup(rng, geo, sorted(flat))
+    if flat_steps:
+        where = {i: Fraction(geo["scales"][i]) * v + Fraction(geo["offsets"][i]) for i, v in flat_steps.items()}
+
+        def meets(k):
+            cube = cube_of(geo, k)
+            return all(cube[i][0] <= w <= cube[i][1] for i, w in where.items())
+        keys = gen_keys(rng, depth, budget, ok=meets)
+    else:
+        keys = gen_keys(rng, depth, budget)
     while malformed and (bad_key(keys) is None or bad_key2(keys) is None):
         keys = gen_keys(rng, depth, min(budget, 6))
     # ---- points
@@ -406,14 +451,15 @@ def build_file(rng, malformed=None, depth=None, budget=None, geo=None, grid=None
         grid = (not malformed) and rng.random() < 0.3
     for k in keys:
         n = rng.choice([0, 0, 1, 2, 3, 5])
-        if k == (0, 0, 0, 0) and (grid or rng.random() < 0.5):
+        if k == (0, 0, 0, 0) and (grid or flat_steps or rng.random() < 0.5):
             n = max(n, 1)
         cube = cube_of(geo, k)
         ranges = [grid_range(cube[i][0], cube[i][1], geo["scales"][i], geo["offsets"][i]) for i in range(3)]
         tags = []
         for j in range(n):
             cross = grid and (j == 0 or rng.random() < 0.25)
-            c = [pick_coord(rng, cube[i][0], cube[i][1], geo["scales"][i], geo["offsets"][i],
+            c = [flat_steps[i] if i in flat_steps else
+                 pick_coord(rng, cube[i][0], cube[i][1], geo["scales"][i], geo["offsets"][i],
                             noisy=cross and rng.random() < 0.6) for i in range(3)]
             if None in c:
                 continue
@@ -425,6 +471,8 @@ def build_file(rng, malformed=None, depth=None, budget=None, geo=None, grid=None
                 # same node (and inside its cube): what a box bound that lands one step off lets in or drops
                 centres.append(tag)
                 for i in range(3):
+                    if i in flat_steps:
+                        continue
                     for d in (-1, 1) + ((-2, 2) if rng.random() < 0.3 else ()):
                         v = c[i] + d
                         if ranges[i][0] <= v <= ranges[i][1]:
@@ -543,12 +591,14 @@ def build_file(rng, malformed=None, depth=None, budget=None, geo=None, grid=None
     assert out.tell() == start
     buf[:start] = out.getvalue()
     points = {p[3]: (p[0], p[1], p[2], recs[p[3]]) for p in all_pts}
+    flat_axes = [i for i in range(3) if all_pts and float(hdr.mins[i]) == float(hdr.maxs[i])]
     label = f"fmt{fmt}/{geo['mode']}/depth{depth}/nodes{len(keys)}/pages{len(pages)}/pts{len(all_pts)}" + ("/grid" if centres else "") \
-        + (f"/{malformed}" if malformed else "")
+        + ("/flat-" + "".join("xyz"[i] for i in sorted(flat_steps)) if flat_steps else "") + (f"/{malformed}" if malformed else "")
     return {"raw": bytes(buf), "geo": geo, "fmt": fmt, "nodes": node_pts, "points": points, "spacing": spacing,
             "hdr_z": (float(hdr.mins[2]), float(hdr.maxs[2])), "hdr_mins": [float(v) for v in hdr.mins],
             "hdr_maxs": [float(v) for v in hdr.maxs], "label": label, "item_size": item_size,
-            "root_ref": page_pos[0], "malformed": malformed, "keys": keys, "centres": centres}
+            "root_ref": page_pos[0], "malformed": malformed, "keys": keys, "centres": centres,
+            "flat": sorted(flat_steps), "hdr_flat": flat_axes}
 
 
 # ---- malformed hierarchies: one extra entry in the root page for a key that does not exist otherwise ------------------
@@ -728,6 +778,43 @@ def gen_gridstep_box(rng, f, dims):
     return [float(v) for v in mins[:dims]], [float(v) for v in maxs[:dims]]
 
 
+def gen_degenerate_box(rng, f, dims):
+    """a box WITHOUT thickness along 1 .. dims of its axes, placed exactly on a stored point (a profile plane x = c, a
+    horizontal slice z = c, a line, the point itself): a legal closed box that selects the points lying on it.  Along the
+    other axes: a few grid steps around the point (also none), up to another stored point, the root cube, far beyond it"""
+    geo = f["geo"]
+    pts = f["points"]
+    sc, of = geo["scales"], geo["offsets"]
+    lo = geo["lo"]
+    hi = [l + geo["side"] for l in lo]
+    centres = f.get("centres") or list(pts)
+    p = pts[rng.choice(centres if rng.random() < 0.5 else list(pts))]
+    q = pts[rng.choice(list(pts))]
+    thin = set(rng.sample(range(dims), min(dims, rng.choice([1, 1, 2, 3]))))
+    mins, maxs = [], []
+    for i in range(3):
+        here = step_to_real(p[i], 0.0, sc[i], of[i], rng.choice(["exact", "exact", "float", "dec"]))
+        if i in thin:
+            a = b = here
+        else:
+            m = rng.choice(["steps", "steps", "q", "cube", "far"])
+            if m == "steps":
+                a = step_to_real(p[i] - rng.choice([0, 1, 3, 50]), 0.0, sc[i], of[i], "exact")
+                b = step_to_real(p[i] + rng.choice([0, 1, 3, 50]), 0.0, sc[i], of[i], "exact")
+            elif m == "q":
+                a, b = here, step_to_real(q[i], 0.0, sc[i], of[i], "exact")
+            elif m == "cube":
+                a, b = lo[i], hi[i]
+            else:
+                far = rng.choice([1.0, 1e6, 1e30, math.inf])
+                a, b = lo[i] - far, hi[i] + far
+        mins.append(min(a, b))
+        maxs.append(max(a, b))
+    key = f"degenerate box: no thickness on {len(thin)} of {dims} axes"
+    _GRID_STATS[key] = _GRID_STATS.get(key, 0) + 1
+    return [float(v) for v in mins[:dims]], [float(v) for v in maxs[:dims]]
+
+
 def gen_box(rng, f, kind=None):
     geo = f["geo"]
     lo = geo["lo"]
@@ -735,11 +822,15 @@ def gen_box(rng, f, kind=None):
     hi = [l + side for l in lo]
     if kind is None:
         kind = rng.choice(["inside", "inside", "straddle", "enclose", "disjoint", "huge", "inf", "face", "face", "point",
-                           "halfstep", "touch", "hdr", "gridstep", "gridstep", "gridstep"])
+                           "halfstep", "touch", "hdr", "gridstep", "gridstep", "gridstep", "degenerate", "degenerate"])
     if kind == "gridstep":
         if not f["points"]:
             return gen_box(rng, f)
         return gen_gridstep_box(rng, f, rng.choice([2, 3, 3]))
+    if kind == "degenerate":
+        if not f["points"]:
+            return gen_box(rng, f)
+        return gen_degenerate_box(rng, f, rng.choice([2, 3, 3]))
     if geo["mode"] == "edge" and rng.random() < 0.3:
         kind = "gridedge"
     dims = rng.choice([2, 3, 3])
@@ -839,7 +930,7 @@ def gen_query(rng, f, box_kind=None):
     return (box, lv)
 
 
-BOX_CONTAINERS = ["f64", "f64", "f64", "i64", "f32"]
+BOX_CONTAINERS = ["f64", "f64", "f64", "i64", "f32", "list", "tuple"]
 
 
 def make_bounds(box, container="f64"):
@@ -847,6 +938,9 @@ def make_bounds(box, container="f64"):
     laspy, C = _laspy()
     if box is None:
         return None
+    if container in ("list", "tuple"):      # plain Python sequences of floats (accepted by the unchanged source)
+        seq = list if container == "list" else tuple
+        return C.Bounds(mins=seq(float(v) for v in box[0]), maxs=seq(float(v) for v in box[1]))
     dt = np.float64
     vals = list(box[0]) + list(box[1])
     if container == "i64" and all(math.isfinite(v) and float(v).is_integer() and abs(v) < 2 ** 53 for v in vals):
@@ -1124,6 +1218,9 @@ def all_xy_box(rng):
     return ([-v, -v], [v, v])
 
 
+FLAT_AXES = [(2,), (0, 1, 2), (2,), (0,), (1,), (2,), (0, 1), (1, 2), (0, 2), (0, 1, 2)]
+
+
 def make_cases(ctx):
     global _SESSIONS
     rng = ctx.rng
@@ -1147,6 +1244,24 @@ def make_cases(ctx):
             continue
         qs = [gen_query(rng, f, box_kind="gridstep") for _ in range(ctx.n(14, 30))]
         cases.append((f, qs))
+    # FLAT data sets: all the points on one z (a floor, a water surface), one x or one y (a profile), on a line, at ONE location
+    # (also a file with a single point): the header's extent has no thickness there, so a 2-D box completed with the
+    # header's z range, the header's own bounds and the boxes through stored points are boxes WITHOUT thickness
+    for n in range(ctx.n(16, 120)):
+        axes = FLAT_AXES[n % len(FLAT_AXES)]
+        tiny = len(axes) == 3 and n % 2 == 0
+        f = build_file(rng, flat=axes, grid=rng.random() < 0.3, depth=0 if tiny else rng.choice([0, 1, 2, 2, 3, 4]),
+                       budget=1 if tiny else rng.choice([1, 3, 8, 14, 25]))
+        if not f["points"]:
+            continue
+        qs = []
+        for _q in range(ctx.n(9, 14)):
+            box, lv = gen_query(rng, f, box_kind=rng.choice(["degenerate", "degenerate", "hdr", "point", "inside", "enclose", "inf",
+                                                              "face", "gridstep", None, None]))
+            if box is not None and len(box[0]) == 3 and 2 in axes and rng.random() < 0.5:
+                box = (box[0][:2], box[1][:2])          # a window in x / y on a file without thickness in z
+            qs.append((box, lv))
+        cases.append((f, qs))
     # tiles: files that share the x / y window of their root cube (the same cube, or the cube moved up / down by whole
     # sides) and differ in content and z range; the same queries are asked of every file of the family
     for _ in range(ctx.n(10, 60)):
@@ -1155,7 +1270,8 @@ def make_cases(ctx):
         fam = []
         for dz in shifts:
             try:
-                fam.append(build_file(rng, geo=shift_geometry(geo, dz), depth=rng.choice([1, 2, 3]), budget=rng.choice([3, 8, 14])))
+                fam.append(build_file(rng, geo=shift_geometry(geo, dz), depth=rng.choice([1, 2, 3]), budget=rng.choice([3, 8, 14]),
+                                      flat=(2,) if rng.random() < 0.25 else None))     # some tiles are flat (one z)
             except AssertionError:
                 continue
         qs = []
@@ -1208,10 +1324,14 @@ def correspond(ctx):
         "COPC files built in memory: formats 6/7/8; dyadic root cubes (small / large / at the end of the int32 grid / sub-unit), "
         "scales incl. 0.01/0.001 and powers of two, depth 0..5, 1..40 occupied keys, 0..5 points per node (empty interior and "
         "leaf nodes, with an empty chunk or offset 0 / size 0), points biased to voxel faces, hierarchy split over random pages, "
+        "FLAT data sets (all points on one z, one x, one y, on a line, at one location, one point; the coordinate anywhere or on "
+        "the face between two voxels; header min = max on that axis), "
         "chunks and pages shuffled with gaps (chunks in any order, not level by level); families of tiles (the same x / y "
         "window, other content and z range) asked the same queries; queries: boxes inside / straddling / enclosing / "
         "disjoint / 1e30,1e300 / +-inf / "
-        "on voxel faces / touching from outside / on point coordinates / half a step off points / header bounds / bounds AT "
+        "on voxel faces / touching from outside / on point coordinates / half a step off points / header bounds / WITHOUT "
+        "thickness on 1, 2 or 3 axes exactly on a stored point (a plane, a line, the point; 2-D boxes on files whose z extent is "
+        "one value) / bounds AT "
         "and AROUND grid steps in the binary64 sense ((k + fr) steps for fr = 0, +-1e-13..1e-4, +-0.25..0.49, 0.5 +- 1e-5, "
         "+-0.51..0.999999999, written by binary64 arithmetic, by correct rounding of the exact value or as a decimal literal, "
         "moved by 0..2 ulps; mins and maxs and the three axes independently; negative and positive steps; k next to stored "
@@ -1261,6 +1381,15 @@ def correspond(ctx):
         ctx.count("levels:" + q[1][0])
         ctx.count("model:" + (mq[0] if mq[0] == "ok" else mq[1]))
         ctx.count("fmt%d" % f["fmt"])
+        if f.get("flat"):
+            ctx.count("flat data set (one " + "/".join("xyz"[i] for i in f["flat"]) + ")" if len(f["flat"]) < 3 else "flat data set (one location)")
+        if q[0] is not None:
+            m3 = list(q[0][0]) + ([f["hdr_mins"][2]] if len(q[0][0]) == 2 else [])
+            x3 = list(q[0][1]) + ([f["hdr_maxs"][2]] if len(q[0][1]) == 2 else [])
+            thin = sum(1 for a, b in zip(m3, x3) if a == b)
+            if thin:
+                ctx.count(f"box without thickness on {thin} axis/axes" + (" (2-D box completed with a header z range of one value)"
+                                                                          if len(q[0][0]) == 2 and m3[2] == x3[2] else ""))
         if f["malformed"]:
             ctx.count("malformed:" + f["malformed"])
         else:
@@ -1408,7 +1537,10 @@ def run_session(files, q, order, container="f64", shared=True, sources=None, ans
     """one Bounds object and one level object for the whole session, one reader per file (opened at its first step);
     -> (step index, kind, observed) of the first step whose answer is wrong, or None"""
     box, lv = q
-    b = make_bounds(box, container)
+    try:
+        b = make_bounds(box, container)
+    except Exception as ex:  # noqa: the box cannot even be handed to a query
+        return (0, "query raises", common.exc_kind(ex) + f" (building the Bounds object of the box: {type(ex).__name__}: {ex})"[:300])
     lvl, _res = make_level(lv)
     readers = {}
     cleanups = []
@@ -1536,7 +1668,13 @@ def search(ctx, seeds):
             break
         ctx.evaluations += len(order)
         ctx.count("session steps", len(order))
-        bad = check_session(files, q, order, container, srcs)
+        try:
+            bad = check_session(files, q, order, container, srcs)
+        except Exception as ex:  # noqa: what was found so far is kept
+            import traceback
+            ctx.notes.append("a session could not be judged: " + traceback.format_exc()[-600:])
+            bad = {"kind": "session cannot be run", "input": session_json(files, q, order, container, srcs),
+                   "observed": f"{type(ex).__name__}: {ex}"[:300]}
         base = bad["kind"].split(" [")[0].replace(" (objects re-used)", "") if bad else None
         if bad and (base not in seen or "(objects re-used)" in bad["kind"]) and bad["kind"].split(" [")[0] not in seen:
             seen.add(base)
